@@ -377,6 +377,12 @@ class _GenClose(BaseException):
     pass
 
 
+class _GenAbandon(BaseException):
+    """Unwinds the thread of a generator nobody can reach any more (the run that created it is over): no interpreted code runs on
+    the way out - neither finally blocks nor handlers - since CPython would not run them at this point either (the object is garbage
+    of a finished run; the evaluator only reclaims the thread)."""
+
+
 class EnumInt(int):
     """a member of an enum.IntEnum class: an int in every respect, with .name / .value and its class"""
 
@@ -758,6 +764,7 @@ class World:
         self.B = aeb.make_builtins(self)
         self.interp = Interp(self)
         self._snap = None
+        self.live_gens: list = []   # generators whose body runs in a thread that is still suspended
 
     # ---- loading
     def load(self, modname: str) -> ModuleV:
@@ -853,6 +860,11 @@ class World:
         self.choice_log = []
 
     def reset_state(self):
+        # a new run starts from the snapshot: no object of the previous run is reachable, so the threads of generators it left
+        # suspended are reclaimed (without running any interpreted code)
+        gens, self.live_gens = self.live_gens, []
+        for g in gens:
+            self.interp.gen_abandon(g)
         self.restore()
         self.steps = 0
         self.depth = 0
@@ -1333,7 +1345,7 @@ class Interp:
             else:
                 self.exec_block(st.orelse, fr)
         finally:
-            if st.finalbody:
+            if st.finalbody and not isinstance(sys.exc_info()[1], _GenAbandon):
                 # NB: a Python-level exception in flight (Raised/_Return/...) is preserved unless
                 # the finally block itself transfers control.
                 self.exec_block(st.finalbody, fr)
@@ -2261,6 +2273,8 @@ class Interp:
         g.to_gen.acquire()
         if g.event == ("close",):
             raise _GenClose()
+        if g.event == ("abandon",):
+            raise _GenAbandon()
         return None
 
     def ex_Yield(self, e, fr):
@@ -2278,6 +2292,10 @@ class Interp:
         except _GenClose:
             if isinstance(src, GenV):
                 self.gen_close(src)        # closing the outer generator closes the one it delegates to first
+            raise
+        except _GenAbandon:
+            if isinstance(src, GenV):
+                self.gen_abandon(src)
             raise
         return src.ret if isinstance(src, GenV) else None
 
@@ -2471,6 +2489,10 @@ class Interp:
             ev = ("return", r.v)
         except _GenClose:
             ev = ("return", None)
+        except _GenAbandon:
+            g.event = ("return", None)
+            g.to_cons.release()
+            return
         except BaseException as e:  # noqa: BLE001 - handed to the consumer, which re-raises it
             ev = ("raise", e)
         w.depth = g.resume_depth
@@ -2506,6 +2528,7 @@ class Interp:
             g.to_gen, g.to_cons = threading.Semaphore(0), threading.Semaphore(0)
             g.thread = threading.Thread(target=self._gen_main, args=(g,), daemon=True)
             g.thread.start()
+            w.live_gens.append(g)
         else:
             w.depth += g.inner_depth
             g.event = None
@@ -2551,6 +2574,19 @@ class Interp:
             raise Raised(w.B.mkexc("RuntimeError", "generator ignored GeneratorExit"))
         if ev[0] == "raise":
             raise ev[1]
+
+    def gen_abandon(self, g: GenV):
+        """reclaim the thread of a suspended generator of a finished run (see _GenAbandon); world state is left as it is"""
+        if g.done or g.thread is None:
+            return
+        w = self.w
+        saved = w.depth
+        g.event = ("abandon",)
+        g.to_gen.release()
+        g.to_cons.acquire()
+        w.depth = saved
+        g.done = True
+        g.thread = None
 
     def run_gen(self, g: GenV):
         """run the generator to its end (for consumers that take everything at once)"""
